@@ -40,8 +40,8 @@ def budget(tier):
 def gen_case(rng, tier):
     cfg = gen.Cfg(
         engines=("sql", "it", "it2"),
-        ops=("calc", "proj", "sel", "dedup", "sort", "slice", "chain", "join", "mat", "mark"),
-        weights={"mat": 1.6, "chain": 1.2, "sort": 0.7, "mark": 0.6},
+        ops=("calc", "proj", "sel", "dedup", "sort", "slice", "chain", "join", "mat", "mark", "cap", "rev"),
+        weights={"mat": 1.6, "chain": 1.2, "sort": 0.7, "mark": 0.6, "cap": 0.4, "rev": 0.4},
         max_depth=2 if tier == "quick" or rng.random() < 0.6 else 3,
         xfer_prob=0.28,
         raw_leaves=False,
